@@ -539,9 +539,34 @@ def _drop_plan(rng, frames):
         # explicit disconnect_player while inputs of the dropped player (delayed ones in particular) are
         # ahead of the survivor's frame: the cut-off frame itself is simulated after the flag is set
         p["discs"] = [{"p": 0, "h": rng.choice(peers[1]["locals"]), "at_frame": at}]
+        if rng.random() < 0.5:
+            # ... and once more later: the documented answer is InvalidRequest (already disconnected)
+            p["discs"].append(dict(p["discs"][0], at_frame=at + rng.choice([1, 8, 30])))
         if rng.random() < 0.6:
             peers[1]["delay"] = rng.choice([1, 2, 4])
     return p
+
+
+def _spec_kick_plan(rng, frames):
+    """The host disconnects one of its spectators explicitly (disconnect_player with a spectator handle), and
+    tries again later (InvalidRequest is not documented for that - the second call is simply logged)."""
+    nplayers_peers = rng.choice([1, 2])
+    peers = [{"kind": "p2p", "locals": [0], "delay": rng.choice([0, 1]), "host": 0}]
+    if nplayers_peers == 2:
+        peers.append({"kind": "p2p", "locals": [1], "delay": rng.choice([0, 2]), "host": 0})
+    nspec = rng.choice([1, 2])
+    for _ in range(nspec):
+        peers.append({"kind": "spec", "locals": [], "delay": 0, "host": 0})
+    timeout = rng.choice([600, 1000])
+    cfg = {"players": nplayers_peers, "window": rng.choice([0, 2, 8]), "sparse": rng.random() < 0.3,
+           "predictor": "repeat", "desync": 0, "fps": 60, "timeout": timeout, "notify": 300, "max_behind": 10,
+           "catchup": 2, "max_delay": 8, "peers": peers, "inputs_by_frame": 4}
+    at = rng.randrange(10, frames - 20)
+    n = len(peers)
+    return {"seed": rng.randrange(1 << 30), "frames": frames + 150, "cfg": cfg, "tick_ms": [16] * n,
+            "jitter": rng.choice([0, 3]), "lat_lo": 2, "lat_hi": rng.choice([5, 40]), "loss": rng.choice([0.0, 0.1]),
+            "dup": 0.0, "alphabet": 4, "change": 0.5, "drain": True, "max_ms": 60000, "settle_ms": timeout + 1500,
+            "discs": [{"p": 0, "h": nplayers_peers, "at_frame": at}], "after_drop_progress": 30}
 
 
 def c07(res, wd):
@@ -560,6 +585,12 @@ def c07(res, wd):
     engines.obs_runs(res, "C07", ps, {"C07"}, wd, "c07",
                      nontrivial=lambda st, pl: st["discInputs"] >= 5)
     engines.conform_sample(res, "C07", ps, wd, "c07", sizes(res.tier, 3, 12))
+    # disconnect_player with a spectator handle: the host and its other spectators carry on, the kicked
+    # spectator runs into its own time-out
+    ks = [_spec_kick_plan(rng, rng.choice([60, 120])) for _ in range(sizes(res.tier, 6, 30))]
+    engines.obs_runs(res, "C07", ks, {"C07", "C06", "C12"}, wd, "c07k",
+                     nontrivial=lambda st, pl: st["specAdv"] >= 20 and st["advances"] >= 50)
+    engines.conform_sample(res, "C07", ks, wd, "c07k", sizes(res.tier, 2, 6))
     res.rule = ("two-peer sessions (1-2 players per side, windows 0..8, delays, sparse on/off, both predictors, "
                 "with/without spectator, loss up to 30%) in which one side is killed at a random frame with packets in "
                 "flight or disconnected explicitly; Monitor.tla judges event timing against the virtual clock "
